@@ -1,7 +1,7 @@
 (* C07: concrete witnesses (the _refuted half, and the former witnesses of the repaired comment
    defects, which now parse like their comment-free versions) and the finite dispatch-table facts. *)
 From Coq Require Import ZArith List Bool Lia Arith.
-From RV Require Import Base.Wire Base.Text Lang.Lex Lang.PyLayout Lang.Layout Lang.DispatchSpec Gen.Dispatch.
+From RV Require Import Base.Wire Base.Text Lang.Lex Lang.PyLayout Lang.Layout Lang.DispatchSpec Lang.TopFlow Gen.Dispatch.
 From RV Require Import Proofs.LexP Proofs.RoundTripP.
 Import ListNotations.
 Open Scope Z_scope.
@@ -161,14 +161,14 @@ Proof.
   destruct o; try discriminate. auto.
 Qed.
 
-Lemma former_gaps_count : (length former_gaps = 127)%nat /\ (length known_gaps = 4)%nat.
+Lemma former_gaps_count : (length former_gaps = 158)%nat /\ (length known_gaps = 4)%nat.
 Proof. split; vm_compute; reflexivity. Qed.
 
 (* `continue` (repaired): in a for/while loop it is translated in every context; directly in the body
    of the main loop it is translated (it ends the pass); outside any loop it is rejected *)
 Lemma continue_accounted : forall c,
-  lookup K_continue_in_while c table = Some Translated /\
-  lookup K_continue_in_for c table = Some Translated /\
+  lookup K_continue_in_while c table = Some (match c with AfterLoop => Rejected | _ => Translated end) /\
+  lookup K_continue_in_for c table = Some (match c with AfterLoop => Rejected | _ => Translated end) /\
   lookup K_continue_outside_loop c table = Some (match c with MainLoop => Translated | _ => Rejected end) /\
   known_gap K_continue_in_while c = false /\ known_gap K_continue_in_for c = false /\
   known_gap K_continue_outside_loop c = false.
@@ -176,3 +176,59 @@ Proof. intros []; vm_compute; repeat split; reflexivity. Qed.
 
 Lemma known_gaps_nonempty : (length known_gaps = 4)%nat.
 Proof. vm_compute. reflexivity. Qed.
+
+(* AFTER THE MAIN LOOP (context AfterLoop of the regenerated table): no statement kind is translated there, every
+   kind outside the fixed set of the property is rejected with an error, a comment line changes nothing *)
+Lemma after_loop_never_translated : forall k o, lookup k AfterLoop table = Some o -> o <> Translated.
+Proof. intros k o H E. subst o. revert H. destruct k; vm_compute; intros; congruence. Qed.
+
+Lemma after_loop_rejected : forall k, allowed k = false -> lookup k AfterLoop table = Some Rejected.
+Proof. intros k; destruct k; vm_compute; intros; congruence. Qed.
+
+Lemma after_loop_comment_ignored : lookup K_comment_line AfterLoop table = Some Ignored.
+Proof. vm_compute. reflexivity. Qed.
+
+(* ================================================================ after the main loop / function variants *)
+Definition w_second_loop : list text :=
+  [[108;101;100;32;61;32;76;101;100;40;49;51;41]  (* 'led = Led(13)' *);
+   [119;104;105;108;101;32;84;114;117;101;58]  (* 'while True:' *);
+   [32;32;32;32;108;101;100;46;116;111;103;103;108;101;40;41]  (* '    led.toggle()' *);
+   [35;32;97;108;97;114;109;32;109;111;100;101]  (* '# alarm mode' *);
+   [119;104;105;108;101;32;84;114;117;101;58]  (* 'while True:' *);
+   [32;32;32;32;98;122;46;112;108;97;121;95;116;111;110;101;40;52;52;48;41]  (* '    bz.play_tone(440)' *)].
+Definition w_late_def : list text :=
+  [[119;104;105;108;101;32;84;114;117;101;58]  (* 'while True:' *);
+   [32;32;32;32;108;101;100;46;116;111;103;103;108;101;40;41]  (* '    led.toggle()' *);
+   []  (* '' *);
+   [100;101;102;32;97;108;97;114;109;40;41;58]  (* 'def alarm():' *);
+   [32;32;32;32;98;122;46;112;108;97;121;95;116;111;110;101;40;52;52;48;41]  (* '    bz.play_tone(440)' *)].
+Definition w_loop_last : list text :=
+  [[100;101;102;32;97;108;97;114;109;40;41;58]  (* 'def alarm():' *);
+   [32;32;32;32;98;122;46;112;108;97;121;95;116;111;110;101;40;52;52;48;41]  (* '    bz.play_tone(440)' *);
+   [108;101;100;32;61;32;76;101;100;40;49;51;41]  (* 'led = Led(13)' *);
+   [119;104;105;108;101;32;84;114;117;101;58]  (* 'while True:' *);
+   [32;32;32;32;108;101;100;46;116;111;103;103;108;101;40;41]  (* '    led.toggle()' *);
+   []  (* '' *);
+   [32;32;32;35;32;116;104;101;32;101;110;100]  (* '   # the end' *)].
+Definition w_level : list text :=
+  [[100;101;102;32;108;101;118;101;108;40;118;41;58]  (* 'def level(v):' *);
+   [32;32;32;32;105;102;32;118;32;62;32;50;53;53;58]  (* '    if v > 255:' *);
+   [32;32;32;32;32;32;32;32;114;101;116;117;114;110;32;50;53;53]  (* '        return 255' *);
+   [32;32;32;32;101;108;105;102;32;118;32;60;32;48;58]  (* '    elif v < 0:' *);
+   [32;32;32;32;32;32;32;32;114;101;116;117;114;110;32;48]  (* '        return 0' *);
+   [32;32;32;32;102;111;114;32;105;32;105;110;32;114;97;110;103;101;40;50;41;58]  (* '    for i in range(2):' *);
+   [32;32;32;32;32;32;32;32;108;101;100;46;116;111;103;103;108;101;40;41]  (* '        led.toggle()' *);
+   [32;32;32;32;114;101;116;117;114;110;32;118]  (* '    return v' *);
+   [97;32;61;32;108;101;118;101;108;40;51;48;48;46;53;41]  (* 'a = level(300.5)' *)].
+
+Lemma after_loop_witnesses :
+  parse_flow w_second_loop = None /\ parse_flow w_late_def = None /\
+  (exists its, parse_flow w_loop_last = Some its /\ map is_loop its = [false; false; true]) /\
+  length (filter is_loop (parse_top w_second_loop)) = 2%nat.
+Proof. repeat split; try (vm_compute; reflexivity). eexists. split; vm_compute; reflexivity. Qed.
+
+Lemma variant_witness :
+  exists h raw ns, In (TDef h raw ns) (parse_top w_level) /\
+    map (fun n => match n with SBlock k _ b => (Some k, length b) | SLeaf _ => (None, 0%nat) end) (map erase (variant_nodes raw))
+    = [(Some KIf, 1%nat); (Some KElif, 1%nat); (Some KFor, 1%nat); (None, 0%nat)].
+Proof. eexists; eexists; eexists. split; [left; reflexivity|vm_compute; reflexivity]. Qed.
